@@ -475,20 +475,17 @@ CommitReapply ==
           /\ x.p = Last1(chain).r
           /\ LET prev == Last1(chain) IN Commit(x.v, prev.n \ x.v.n, x.v.n \ prev.n, TRUE, FALSE)
 
-SnapNext ==
-    \/ \E i \in DOMAIN chain : \E k \in {"s", "c"} : JobStart(i, k)
-    \/ \E j \in JobIds : GEnqMain(j) \/ GEnqData(j) \/ GExit(j)
-    \/ LTake
-    \/ \E h \in (IF Busy THEN cur[1].todo ELSE {}) : LCopy(h)
-    \/ LFinish
+JobStartAny == \E i \in DOMAIN chain : \E k \in {"s", "c"} : JobStart(i, k)
+GEnqMainAny == \E j \in JobIds : GEnqMain(j)
+GEnqDataAny == \E j \in JobIds : GEnqData(j)
+GExitAny    == \E j \in JobIds : GExit(j)
+LCopyAny    == \E h \in (IF Busy THEN cur[1].todo ELSE {}) : LCopy(h)
+RollbackB   == nroots.rb < MaxRollbacks /\ Rollback
+EnterB      == manual < MaxBlocked /\ Enter
 
-BlockNext ==
-    \/ CommitFresh
-    \/ CommitReapply
-    \/ Finalize
-    \/ (nroots.rb < MaxRollbacks /\ Rollback)
-    \/ (manual < MaxBlocked /\ Enter)
-    \/ Exit
+SnapNext == JobStartAny \/ GEnqMainAny \/ GEnqDataAny \/ GExitAny \/ LTake \/ LCopyAny \/ LFinish
+
+BlockNext == CommitFresh \/ CommitReapply \/ Finalize \/ RollbackB \/ EnterB \/ Exit
 
 Next == BlockNext \/ SnapNext
 
